@@ -30,9 +30,15 @@ func numberedKey(keyN map[string]int, k string) string {
 // than one byte. Otherwise the bare form is compared ("" against the label)
 // and rejected or mis-classified.
 func ruleBarePlus(c *Ctx, rule string) {
-	fn := c.fn("io/seqio/fastq", "(*Reader).Read")
+	read := c.fn("io/seqio/fastq", "(*Reader).Read")
 	keyN := map[string]int{}
-	for _, b := range fn.Blocks {
+	// Read and the private helpers it calls (plusMatches(label, line))
+	var blocks []*ssa.BasicBlock
+	for _, g := range privateReach(read) {
+		blocks = append(blocks, g.Blocks...)
+	}
+	for _, b := range blocks {
+		fn := b.Parent()
 		for _, ins := range b.Instrs {
 			call, ok := ins.(*ssa.Call)
 			if !ok {
@@ -1552,6 +1558,40 @@ func ruleBorderCover(c *Ctx, rule string, fns []*ssa.Function, needRow, needCol 
 						c.und(rule, key+"/first-column", ia.Pos(), "the rows written by this store could not be derived")
 					}
 					continue
+				}
+				// the first column walked by a flat offset: for p := c; p < len(table); p += c
+				if phi, ok := idx.(*ssa.Phi); ok && len(phi.Edges) == 2 {
+					var lp *ssaLoop
+					for _, l := range loops {
+						if l.head == phi.Block() {
+							lp = l
+						}
+					}
+					if lp != nil {
+						fromC, stepC := false, false
+						for i, pr := range phi.Block().Preds {
+							e := phi.Edges[i]
+							if !lp.body[pr] {
+								fromC = e == cVal
+							} else if bo, ok := e.(*ssa.BinOp); ok && bo.Op == token.ADD {
+								stepC = (bo.X == ssa.Value(phi) && bo.Y == cVal) || (bo.Y == ssa.Value(phi) && bo.X == cVal)
+							}
+						}
+						whole := false
+						if ifi, ok := lp.head.Instrs[len(lp.head.Instrs)-1].(*ssa.If); ok {
+							if bo, ok := ifi.Cond.(*ssa.BinOp); ok && bo.Op == token.LSS && bo.X == ssa.Value(phi) {
+								if lc := builtinCall(bo.Y, "len"); lc != nil && lc.Call.Args[0] == ssa.Value(table) {
+									whole = true
+								} else if bo.Y == table.Len || linOf(bo.Y, nil).equal(linOf(table.Len, nil)) {
+									whole = true
+								}
+							}
+						}
+						if fromC && stepC && whole {
+							col0 = append(col0, cellRange{1, rL, ia.Pos()})
+							continue
+						}
+					}
 				}
 				if lo, hi, ok := inductionRange(idx, loops); ok {
 					row0 = append(row0, cellRange{lo, hi, ia.Pos()})
